@@ -1714,6 +1714,10 @@ export class SetRuntype extends BaseRuntype {
   }
 }
 
+function lookupOwn<T>(record: Record<string, T>, key: any): T | undefined {
+  return Object.prototype.hasOwnProperty.call(record, key) ? record[key] : undefined;
+}
+
 export class AnyOfDiscriminatedRuntype extends BaseRuntype {
   private schemas: Runtype[];
   private discriminator: string;
@@ -1838,7 +1842,7 @@ export class AnyOfDiscriminatedRuntype extends BaseRuntype {
     if (d == null) {
       return false;
     }
-    const v = this.mapping[d];
+    const v = lookupOwn(this.mapping, d);
     if (v == null) {
       return false;
     }
@@ -1846,7 +1850,7 @@ export class AnyOfDiscriminatedRuntype extends BaseRuntype {
     return v.validate(ctx, input);
   }
   parseAfterValidation(ctx: ParseContext, input: any): unknown {
-    const parser = this.mapping[input[this.discriminator]];
+    const parser = lookupOwn(this.mapping, input[this.discriminator]);
     if (parser == null) {
       throw new Error(
         "INTERNAL ERROR: Missing parser for discriminator " + JSON.stringify(input[this.discriminator]),
@@ -1866,7 +1870,7 @@ export class AnyOfDiscriminatedRuntype extends BaseRuntype {
     if (d == null) {
       return buildError(ctx, "expected discriminator key " + JSON.stringify(this.discriminator), input);
     }
-    const v = this.mapping[d];
+    const v = lookupOwn(this.mapping, d);
     if (v == null) {
       pushPath(ctx, this.discriminator);
       const errs = buildError(
